@@ -21,7 +21,7 @@ func init() {
 		Rule: "one evaluation = a fresh server whose Run is started while 1..8 pollers spin on Ready(); the first poller iteration that observes true immediately dials the address and performs a verified bind, and " +
 			"keeps dialing at PRNG-chosen later instants until Stop is called. Addresses cover IPv4, hostname, bracketed and unbracketed IPv6 loopback and the empty-host form. Failing addresses (empty, no port, " +
 			"bracket errors, invalid IPv4, unresolvable host, a port the harness keeps bound, a port served by another running gldap server, and a TLS configuration without certificates) must make Run return an error while Ready() - polled during the call and for a while after - never reports true. " +
-			"Between Ready and Stop the harness also lets Accept fail temporarily (descriptor shortage) and parks silent peers on a TLS listener: a new connection must still be served within 10s afterwards / meanwhile. Runs under GOMAXPROCS 1, 4 and 16. A refused dial after an observed true is a logical fact, not a timing judgement. " +
+			"Between Ready and Stop the harness also lets Accept fail temporarily (descriptor shortage), keeps 300/520/1100 idle connections open and parks silent peers on a TLS listener: a new connection must still be served within 10s afterwards / meanwhile. Runs under GOMAXPROCS 1, 4 and 16. A refused dial after an observed true is a logical fact, not a timing judgement. " +
 			"distinct_nontrivial = distinct (address form, #pollers, GOMAXPROCS, whether a poller saw false before true) combinations",
 		Assume: []string{"the address is dialled exactly as it was passed to Run (for the empty-host form, 127.0.0.1)"},
 		Phases: func(tier string, seed int64) []Phase {
@@ -31,7 +31,7 @@ func init() {
 			}
 			return ps
 		},
-		MinObserved: []string{"startups", "dials_after_ready_true", "failing_addresses_checked", "pollers_saw_false_before_true", "served_after_accept_failure_episodes", "served_next_to_silent_tls_peers", "served_while_an_onclose_callback_runs", "served_after_idling_longer_than_the_read_timeout", "served_by_a_second_run_after_a_failed_one"},
+		MinObserved: []string{"startups", "dials_after_ready_true", "failing_addresses_checked", "pollers_saw_false_before_true", "served_after_accept_failure_episodes", "served_next_to_silent_tls_peers", "served_while_an_onclose_callback_runs", "served_after_idling_longer_than_the_read_timeout", "served_by_a_second_run_after_a_failed_one", "served_next_to_hundreds_of_idle_connections"},
 	})
 }
 
@@ -354,6 +354,34 @@ func c17Disturbances(c *Ctx) {
 		}
 		c.Count("served_after_accept_failure_episodes", 1)
 		srv.StopWithin(patience)
+
+		// hundreds of connections that are open and idle: the next client is served like the first one
+		if isrv, err := startSrv(SrvCfg{}, bindOK); err == nil {
+			nIdle := []int{300, 520, 1100}[ep%3]
+			var idle []net.Conn
+			for k := 0; k < nIdle; k++ {
+				cn, err := net.DialTimeout("tcp", isrv.Addr, patience)
+				if err != nil {
+					break
+				}
+				idle = append(idle, cn)
+			}
+			if len(idle) == nIdle {
+				if err := c17Served(isrv.Addr, nil, bound); err != nil && isrv.S.Ready() {
+					c.Violate("Ready() was true but a connection attempt failed or was not served", fmt.Sprintf("with %d idle connections open: Ready()=true, Stop not called, yet a new connection is not served within %s: %v", nIdle, bound, err), map[string]any{"idle_connections": nIdle})
+				} else if err == nil {
+					c.Count("dials_after_ready_true", 1)
+					c.Count("served_next_to_hundreds_of_idle_connections", 1)
+					c.Max("max/idle_connections_open_when_a_client_was_served", int64(nIdle))
+				}
+			} else {
+				c.Inconclusive(fmt.Sprintf("only %d of %d idle connections could be opened", len(idle), nIdle))
+			}
+			for _, cn := range idle {
+				cn.Close()
+			}
+			isrv.StopWithin(patience)
+		}
 
 		// an OnClose callback of an earlier connection that takes its time (held by the harness): connections that
 		// arrive meanwhile are served
